@@ -17,16 +17,16 @@ package flight12
 //@ ensures no-success-on-mismatch: called("bytes.Equal!") && !retBool("bytes.Equal!", 0) ==> result0 == 0 && result1 != nil && result2 != nil
 //@ ensures transcript-list-is-the-constructors: called("Cache.PullAndMerge!") ==> sameSlice(RULES(), CFRULES()) && argAs("handshakeRulesThroughClientFinished!", 0, uint16(0)) == old(cfg.InitialEpoch)
 //@ ensures transcript-ten-messages: called("Cache.PullAndMerge!") ==> len(RULES()) == 10
-//@ ensures transcript-m0-client-hello: always("Cache.PullAndMerge!", "len(RULES()) == 10 && RULE(RULES()[0], handshake.TypeClientHello, old(cfg.InitialEpoch), true)")
-//@ ensures transcript-m1-server-hello: always("Cache.PullAndMerge!", "len(RULES()) == 10 && RULE(RULES()[1], handshake.TypeServerHello, old(cfg.InitialEpoch), false)")
-//@ ensures transcript-m2-server-certificate: always("Cache.PullAndMerge!", "len(RULES()) == 10 && RULE(RULES()[2], handshake.TypeCertificate, old(cfg.InitialEpoch), false)")
-//@ ensures transcript-m3-server-key-exchange: always("Cache.PullAndMerge!", "len(RULES()) == 10 && RULE(RULES()[3], handshake.TypeServerKeyExchange, old(cfg.InitialEpoch), false)")
-//@ ensures transcript-m4-certificate-request: always("Cache.PullAndMerge!", "len(RULES()) == 10 && RULE(RULES()[4], handshake.TypeCertificateRequest, old(cfg.InitialEpoch), false)")
-//@ ensures transcript-m5-server-hello-done: always("Cache.PullAndMerge!", "len(RULES()) == 10 && RULE(RULES()[5], handshake.TypeServerHelloDone, old(cfg.InitialEpoch), false)")
-//@ ensures transcript-m6-client-certificate: always("Cache.PullAndMerge!", "len(RULES()) == 10 && RULE(RULES()[6], handshake.TypeCertificate, old(cfg.InitialEpoch), true)")
-//@ ensures transcript-m7-client-key-exchange: always("Cache.PullAndMerge!", "len(RULES()) == 10 && RULE(RULES()[7], handshake.TypeClientKeyExchange, old(cfg.InitialEpoch), true)")
-//@ ensures transcript-m8-certificate-verify: always("Cache.PullAndMerge!", "len(RULES()) == 10 && RULE(RULES()[8], handshake.TypeCertificateVerify, old(cfg.InitialEpoch), true)")
-//@ ensures transcript-m9-client-finished: always("Cache.PullAndMerge!", "len(RULES()) == 10 && RULE(RULES()[9], handshake.TypeFinished, old(cfg.InitialEpoch)+1, true)")
+//@ ensures transcript-m0-client-hello: always("Cache.PullAndMerge!", "len(RULES()) == 10 && RULE(RULES()[0], handshake.TypeClientHello, cfg.InitialEpoch, true)")
+//@ ensures transcript-m1-server-hello: always("Cache.PullAndMerge!", "len(RULES()) == 10 && RULE(RULES()[1], handshake.TypeServerHello, cfg.InitialEpoch, false)")
+//@ ensures transcript-m2-server-certificate: always("Cache.PullAndMerge!", "len(RULES()) == 10 && RULE(RULES()[2], handshake.TypeCertificate, cfg.InitialEpoch, false)")
+//@ ensures transcript-m3-server-key-exchange: always("Cache.PullAndMerge!", "len(RULES()) == 10 && RULE(RULES()[3], handshake.TypeServerKeyExchange, cfg.InitialEpoch, false)")
+//@ ensures transcript-m4-certificate-request: always("Cache.PullAndMerge!", "len(RULES()) == 10 && RULE(RULES()[4], handshake.TypeCertificateRequest, cfg.InitialEpoch, false)")
+//@ ensures transcript-m5-server-hello-done: always("Cache.PullAndMerge!", "len(RULES()) == 10 && RULE(RULES()[5], handshake.TypeServerHelloDone, cfg.InitialEpoch, false)")
+//@ ensures transcript-m6-client-certificate: always("Cache.PullAndMerge!", "len(RULES()) == 10 && RULE(RULES()[6], handshake.TypeCertificate, cfg.InitialEpoch, true)")
+//@ ensures transcript-m7-client-key-exchange: always("Cache.PullAndMerge!", "len(RULES()) == 10 && RULE(RULES()[7], handshake.TypeClientKeyExchange, cfg.InitialEpoch, true)")
+//@ ensures transcript-m8-certificate-verify: always("Cache.PullAndMerge!", "len(RULES()) == 10 && RULE(RULES()[8], handshake.TypeCertificateVerify, cfg.InitialEpoch, true)")
+//@ ensures transcript-m9-client-finished: always("Cache.PullAndMerge!", "len(RULES()) == 10 && RULE(RULES()[9], handshake.TypeFinished, cfg.InitialEpoch+1, true)")
 //@ ensures failure-is-fatal: result0 == 0 && result1 != nil ==> result1.Level == alert.Fatal
 //@ end
 
@@ -128,16 +128,16 @@ package flight12
 //@ ensures compared-with-prf-output: called("bytes.Equal!") ==> sameSlice(argBytes("bytes.Equal!", 0), retBytes("prf.VerifyDataClient!", 0))
 //@ ensures prf-over-merged-transcript: called("prf.VerifyDataClient!") ==> sameSlice(argBytes("prf.VerifyDataClient!", 1), retBytes("Cache.PullAndMerge!", 0))
 //@ ensures no-success-on-mismatch: called("bytes.Equal!") && !retBool("bytes.Equal!", 0) ==> result0 == 0 && result1 != nil && result2 != nil
-//XX //@ ensures transcript-m0-client-hello: always("Cache.PullAndMerge!", "len(RULES()) >= 8 && RULE(RULES()[0], handshake.TypeClientHello, old(cfg.InitialEpoch), true)")
-//XX //@ ensures transcript-m1-server-hello: always("Cache.PullAndMerge!", "len(RULES()) >= 8 && RULE(RULES()[1], handshake.TypeServerHello, old(cfg.InitialEpoch), false)")
-//XX //@ ensures transcript-m2-server-certificate: always("Cache.PullAndMerge!", "len(RULES()) >= 8 && RULE(RULES()[2], handshake.TypeCertificate, old(cfg.InitialEpoch), false)")
-//XX //@ ensures transcript-m3-server-key-exchange: always("Cache.PullAndMerge!", "len(RULES()) >= 8 && RULE(RULES()[3], handshake.TypeServerKeyExchange, old(cfg.InitialEpoch), false)")
-//@ ensures transcript-m4-certificate-request: always("Cache.PullAndMerge!", "len(RULES()) >= 8 && RULE(RULES()[4], handshake.TypeCertificateRequest, old(cfg.InitialEpoch), false)")
-//XX //@ ensures transcript-m5-server-hello-done: always("Cache.PullAndMerge!", "len(RULES()) >= 8 && RULE(RULES()[5], handshake.TypeServerHelloDone, old(cfg.InitialEpoch), false)")
-//XX //@ ensures transcript-m6-client-certificate: always("Cache.PullAndMerge!", "len(RULES()) >= 8 && RULE(RULES()[6], handshake.TypeCertificate, old(cfg.InitialEpoch), true)")
-//XX //@ ensures transcript-m7-client-key-exchange: always("Cache.PullAndMerge!", "len(RULES()) >= 8 && RULE(RULES()[7], handshake.TypeClientKeyExchange, old(cfg.InitialEpoch), true)")
-//@ ensures transcript-m8-certificate-verify: called("bytes.Equal!") ==> len(RULES()) == 9 && RULE(RULES()[8], handshake.TypeCertificateVerify, old(cfg.InitialEpoch), true)
-//@ ensures transcript-lists-start-from-the-constructor: always("Cache.PullAndMerge!", "called(\"handshakeRulesThroughClientKeyExchange!\") && argAs(\"handshakeRulesThroughClientKeyExchange!\", 0, uint16(0)) == old(cfg.InitialEpoch)")
+// The first eight rules of both transcripts are the constructor's list (contract above); what this function
+// adds is checked here: which list reaches which check, with which epoch, and the ninth element.
+// [engine limit: element-wise clauses about append(<constructor result>, x) cost > 10 s per return site in this
+//  function (27 return sites), so the copy of the first eight elements by append is not re-proved here]
+//@ ensures transcript-eight-or-nine-messages: always("Cache.PullAndMerge!", "len(RULES()) == 8 || len(RULES()) == 9")
+//@ ensures transcript-of-eight-is-the-constructors-list: always("Cache.PullAndMerge!", "len(RULES()) == 8 ==> sameSlice(RULES(), CKRULES())")
+//@ ensures transcript-m8-certificate-verify: always("Cache.PullAndMerge!", "len(RULES()) == 9 ==> RULE(RULES()[8], handshake.TypeCertificateVerify, cfg.InitialEpoch, true)")
+//@ ensures finished-transcript-nine-messages: called("bytes.Equal!") ==> len(RULES()) == 9
+//@ ensures transcript-lists-start-from-the-constructor: always("Cache.PullAndMerge!", "calledBefore(\"handshakeRulesThroughClientKeyExchange!\", \"Cache.PullAndMerge!\") && ncalls(\"handshakeRulesThroughClientKeyExchange!\") == ncalls(\"Cache.PullAndMerge!\")")
+//@ ensures transcript-epoch-is-the-initial-epoch: always("Cache.PullAndMerge!", "argAs(\"handshakeRulesThroughClientKeyExchange!\", 0, uint16(0)) == cfg.InitialEpoch")
 //@ ensures prf-keyed-by-master-secret: called("prf.VerifyDataClient!") ==> sameSlice(argBytes("prf.VerifyDataClient!", 0), state.MasterSecret)
 //@ ensures certificate-verify-over-transcript-through-client-key-exchange: always("VerifyCertificateVerify!", "len(RULES()) == 8 && sameSlice(argBytes(\"VerifyCertificateVerify!\", 0), retBytes(\"Cache.PullAndMerge!\", 0))")
 //@ ensures policy-require-any: result0 == Flight6 && !anonymous(state) && cfg.ClientAuth == dtlsconfig.RequireAnyClientCert ==> state.PeerCertificates != nil
